@@ -704,6 +704,10 @@ impl<RW: QueueRW<T>, T> FutInnerRecv<RW, T> {
     /// Creates a new stream and returns a FutInnerRecv on that stream
     pub fn add_stream(&self) -> FutInnerRecv<RW, T> {
         let rx = self.reader.add_stream();
+        // The new stream is visible to the senders at a stale position of its
+        // parent for a moment before it is moved to the current one: a sender
+        // refused in between has room now and must hear about it
+        self.prod_wait.notify_all();
         FutInnerRecv {
             reader: rx,
             wait: self.wait.clone(),
@@ -778,6 +782,8 @@ impl<RW: QueueRW<T>, R, F: FnMut(&T) -> R, T> FutInnerUniRecv<RW, R, F, T> {
     /// Adds another stream to the queue with a FutInnerUniRecv using the passed function
     pub fn add_stream_with<Q, FQ: FnMut(&T) -> Q>(&self, op: FQ) -> FutInnerUniRecv<RW, Q, FQ, T> {
         let rx = self.reader.add_stream();
+        // see FutInnerRecv::add_stream
+        self.prod_wait.notify_all();
         FutInnerUniRecv {
             reader: rx,
             wait: self.wait.clone(),
